@@ -159,6 +159,9 @@ type instance struct {
 	// doomed: the query cannot be executed (bad directive argument): no update
 	// may ever be sent for it
 	doomed bool
+	// wild: arbitrary arguments; whether it fails or what it returns is not
+	// predicted, only that the server survives it
+	wild bool
 }
 
 type logEvent struct {
@@ -372,6 +375,8 @@ func (h *connHarness) onWrite(m *wireMsg) {
 			doomed := false
 			if in := h.live[m.id]; in != nil && in.doomed {
 				doomed = strings.Contains(msg, "directive") || strings.Contains(msg, "\"if\" argument")
+			} else if in != nil && in.wild {
+				doomed = true // thunder's own complaint about the arguments (no resolver text can be in it)
 			}
 			if !m.byLoop && !doomed {
 				c.ViolateFor("C16", "unsanitised-error-envelope", "error envelope with message %q is neither a safe error of the request nor the generic message", msg)
@@ -484,6 +489,9 @@ func settleTasks() {
 // expected evaluates the instance's query with the reference evaluator on the
 // current world, keys stripped, normalised through JSON.
 func (h *connHarness) expected(in *instance) (interface{}, bool) {
+	if in.wild {
+		return nil, false
+	}
 	ev := &evaluator{w: h.w}
 	want := ev.object("Query", 0, in.root, nil)
 	delete(want.(map[string]interface{}), "__key")
@@ -617,6 +625,10 @@ func connBody(c *runner.Ctx) {
 		case op < 5: // subscribe
 			g := &gen{c: c, w: w, budget: 10}
 			root := g.genSet("Query", 0)
+			if c.Choose(4, "directives") == 1 {
+				g.dirs = true
+				g.decorate(root)
+			}
 			in := &instance{inst: len(h.instances), id: id, root: root, text: g.text(root, "")}
 			h.instances = append(h.instances, in)
 			if h.faulty && c.Biased(4, 700, "initial-failure") > 0 {
@@ -625,7 +637,7 @@ func connBody(c *runner.Ctx) {
 			}
 			desc = append(desc, fmt.Sprintf("subscribe(%s #%d)", id, in.inst))
 			c.Describe("instance %d id=%s: %s", in.inst, id, in.text)
-			h.send("subscribe", id, map[string]interface{}{"query": in.text, "variables": map[string]interface{}{"inst": in.inst}}, in)
+			h.send("subscribe", id, map[string]interface{}{"query": in.text, "variables": map[string]interface{}{"inst": in.inst, "t": true, "f": false}}, in)
 		case op < 7:
 			desc = append(desc, fmt.Sprintf("unsubscribe(%s)", id))
 			target := h.live[id]
@@ -682,7 +694,7 @@ func connBody(c *runner.Ctx) {
 			// an ordinary subscription otherwise: its result is { n }
 			in := &instance{inst: len(h.instances), id: id, root: &qset{sels: []*qsel{{name: "n"}}}, text: sb.String()}
 			h.instances = append(h.instances, in)
-			h.send("subscribe", id, map[string]interface{}{"query": in.text, "variables": map[string]interface{}{"inst": in.inst}}, in)
+			h.send("subscribe", id, map[string]interface{}{"query": in.text, "variables": map[string]interface{}{"inst": in.inst, "t": true, "f": false}}, in)
 		case op == 10 && h.faulty && c.Choose(2, "garbage-or-doomed") == 0:
 			// well-formed GraphQL that cannot be executed (bad directive argument):
 			// the subscription must be answered with an error and closed
@@ -690,6 +702,16 @@ func connBody(c *runner.Ctx) {
 			c.Fault("unexecutable-directive")
 			desc = append(desc, "doomed("+text+")")
 			in := &instance{inst: len(h.instances), id: id, root: &qset{sels: []*qsel{{name: "n"}}}, text: text, doomed: true, failedBeforeFirst: true}
+			h.instances = append(h.instances, in)
+			vars["inst"] = in.inst
+			h.send("subscribe", id, map[string]interface{}{"query": text, "variables": vars}, in)
+		case op == 10 && h.faulty && c.Choose(2, "garbage-or-wild") == 0:
+			// arbitrary arguments and variables: answered with updates or with an
+			// error, the connection keeps working
+			text, vars := wildQuery(c)
+			c.Fault("arbitrary-arguments")
+			desc = append(desc, "wild("+text+")")
+			in := &instance{inst: len(h.instances), id: id, root: &qset{}, text: text, wild: true}
 			h.instances = append(h.instances, in)
 			vars["inst"] = in.inst
 			h.send("subscribe", id, map[string]interface{}{"query": text, "variables": vars}, in)
@@ -745,7 +767,7 @@ func connBody(c *runner.Ctx) {
 				c.ViolateFor("C02,C15", "client-state-diverged", "instance %d (id %s): the client's folded state differs from the query result on the final data\nquery: %s\nclient: %s\n  want: %s", in.inst, in.id, in.text, short(got), short(want))
 			}
 			// and the same against a fresh Execute by thunder itself
-			if q, err := graphql.Parse(in.text, map[string]interface{}{}); err == nil && graphql.PrepareQuery(context.Background(), schema.Query, q.SelectionSet) == nil {
+			if q, err := graphql.Parse(in.text, dirVars()); err == nil && graphql.PrepareQuery(context.Background(), schema.Query, q.SelectionSet) == nil {
 				saved := w.live
 				w.live = nil
 				val, err := graphql.NewExecutor(graphql.NewImmediateGoroutineScheduler()).Execute(context.Background(), schema.Query, nil, q)
